@@ -54,7 +54,7 @@ PROPS['C03'] = dict(
     assumptions=[],
 )
 PROPS['C13'] = dict(
-    theorem='C13_rat, C13_rat_ends_iff, C13_rat_no_trailing_zero, C13_checker_sound (Properties/C13.v)',
+    theorem='C13_rat, C13_rat_ends_iff, C13_rat_no_trailing_zero, C13_rat_digit_formula, C13_checker_sound (Properties/C13.v)',
     functional=True,
     level_text='Theorem for every positive rational: NewNumberFromBigRat\'s model (normalisation + long division at base 10) yields exponent e and digits '
                'whose every prefix M satisfies M*10^[e-j]*den <= num*10^[j-e] < (M+1)*10^[e-j]*den (digit p = floor(v*10^(p+1-e)) mod 10), ends exactly when '
@@ -86,7 +86,7 @@ PROPS['C04'] = dict(
     rule=_hist_rule, modelled='memoizer.wait as an oracle constrained by WaitOK', assumptions=[],
 )
 PROPS['C07'] = dict(
-    theorem='C07_interval, C07_order_free, C07_significant_zero, C07_significant_keeps_exponent (Properties/C07.v)',
+    theorem='C07_interval, C07_order_free, C07_significant_zero, C07_significant_keeps_exponent, C07_view_at, C07_view_scan, C07_view_all_len (Properties/C07.v)',
     functional=True,
     level_text='Theorem for every chain (any length, any integer arguments) on every well-formed value of the v3 representation (which contains the v1/v2 '
                'representation as its FN/MWS fragment): the positions of the result are exactly those of the receiver that satisfy all starts and all ends, '
